@@ -19,7 +19,7 @@ func readPointer(s string) (Path, error) {
 		var element JsonNode
 		var err error
 		number, err := strconv.Atoi(t)
-		if err == nil {
+		if err == nil && isArrayIndex(t) {
 			element, err = NewJsonNode(number)
 		} else {
 			element, err = NewJsonNode(t)
@@ -33,6 +33,20 @@ func readPointer(s string) (Path, error) {
 		path[i] = element
 	}
 	return NewPath(path)
+}
+
+// isArrayIndex reports whether a reference token has the form of an
+// array index as defined by RFC 6901: digits without sign or leading zero.
+func isArrayIndex(t string) bool {
+	if t == "" || (len(t) > 1 && t[0] == '0') {
+		return false
+	}
+	for _, c := range t {
+		if c < '0' || c > '9' {
+			return false
+		}
+	}
+	return true
 }
 
 func writePointer(path []JsonNode) (string, error) {
